@@ -118,4 +118,59 @@ theorem diagAt_keys (n : Nat) (m : List (Int × Slots n))
   obtain ⟨i, v⟩ := d
   rw [diagAt_of_mem m n hrange hnd i v hd, diagOf_of_mem n m hnd i v hd]
 
+/-! ## the naive branch of `Encode` -/
+
+/-- for an index in `(-n, n)` the naive branch's own normalisation `if i < 0 { i + cols }` is `normIdx` -/
+theorem naiveNorm_eq (n : Nat) (i : Int) (hlo : -(n : Int) < i) (hhi : i < (n : Int)) :
+    (if i < 0 then i + (n : Int) else i) = normIdx n i := by
+  unfold normIdx
+  split
+  · have h1 : (i + (n : Int)) % (n : Int) = i % (n : Int) := by simp
+    rw [← h1]; exact (Int.emod_eq_of_lt (by omega) (by omega)).symm
+  · exact (Int.emod_eq_of_lt (by omega) hhi).symm
+
+theorem getLast?_filter_unique {γ : Type} (l : List γ) (p : γ → Bool) (d : γ) (hd : d ∈ l) (hp : p d = true)
+    (huniq : ∀ e ∈ l, p e = true → e = d) : (l.filter p).getLast? = some d := by
+  have hne : l.filter p ≠ [] := by
+    intro h
+    have : d ∈ l.filter p := List.mem_filter.2 ⟨hd, hp⟩
+    rw [h] at this; simp at this
+  cases hl : (l.filter p).getLast? with
+  | none => exact absurd (List.getLast?_eq_none_iff.1 hl) hne
+  | some e =>
+    have he : e ∈ l.filter p := List.mem_of_getLast? hl
+    rw [List.mem_filter] at he
+    rw [huniq e he.1 he.2]
+
+/-- `Encode` (naive branch) on a diagonal map with indices in `(-n, n)`, distinct modulo `n`, all of them
+    allocated: every allocated key that is the normalised index of a diagonal receives that diagonal -/
+theorem encode_naive (n : Nat) (m : List (Int × Slots n))
+    (hrange : ∀ d ∈ m, -(n : Int) < d.1 ∧ d.1 < (n : Int))
+    (hnd : (m.map fun d => d.1 % (n : Int)).Nodup) (keys : List Int)
+    (hall : ∀ d ∈ m, normIdx n d.1 ∈ keys)
+    (hkeys : ∀ k ∈ keys, ∃ d ∈ m, k = normIdx n d.1) :
+    encode (fnOps n) n 0 keys m = some (keys.map fun k => (k, diagOf n m k)) := by
+  unfold encode
+  simp only [if_true]
+  have hallb : (m.all fun d => keys.contains (if d.1 < 0 then d.1 + (n : Int) else d.1)) = true := by
+    rw [List.all_eq_true]
+    intro d hd
+    rw [naiveNorm_eq n d.1 (hrange d hd).1 (hrange d hd).2]
+    simpa using hall d hd
+  rw [if_pos hallb]
+  congr 1
+  apply List.map_congr_left
+  intro k hk
+  obtain ⟨d, hd, rfl⟩ := hkeys k hk
+  have hlast : (m.filter fun e => (if e.1 < 0 then e.1 + (n : Int) else e.1) == normIdx n d.1).getLast? = some d := by
+    apply getLast?_filter_unique m _ d hd
+    · rw [naiveNorm_eq n d.1 (hrange d hd).1 (hrange d hd).2]; simp
+    · intro e he hpe
+      rw [naiveNorm_eq n e.1 (hrange e he).1 (hrange e he).2] at hpe
+      have : e.1 % (n : Int) = d.1 % (n : Int) := by simpa [normIdx] using hpe
+      exact eq_of_mod_eq m n hnd e d he hd this
+  rw [hlast]
+  simp only
+  rw [diagOf_of_mem n m hnd d.1 d.2 hd]
+
 end Lattigo.Model.LinTrans
